@@ -35,6 +35,14 @@ def _impl(m, k, lay='c'):
     kk = Fraction(k)
     kv = int(kk) if kk.denominator == 1 else float(kk)
     try:
+        if (len(m) + sum(m)) % 3 == 0:
+            # a session: the same mask was filtered a moment ago and the caller went on WRITING into the array it got back
+            # (a result memoised on the contents and handed out without a copy would now be contaminated)
+            try:
+                prev = check_min_burst_cycles(_layout(m, lay), min_n_cycles=kv)
+                prev[...] = ~np.asarray(prev, dtype=bool)
+            except Exception:
+                pass
         out = check_min_burst_cycles(arr, min_n_cycles=kv)
         return ['ok', proto.enc_bits(list(np.asarray(out).astype(bool)))]
     except Exception as e:
